@@ -3,7 +3,9 @@
   `ok a`   : the Go function returned normally with a (and a nil error / true flag);
   `err e`  : it returned the error kind e (or `false` for a `(T, bool)` result, ε = Unit);
   `panic`  : it reached an explicit `panic(...)`;
-  `fuel`   : a retry loop did not finish within the fuel the definition was given (Go would keep looping).
+  `fuel`   : a retry loop did not finish within the fuel the definition was given (Go would keep looping);
+  `undef`  : an arithmetic assumption of the translation failed (a Go `int` subtraction went negative, which ℕ
+             cannot represent) — the `*_regenerated` theorems show this is never produced.
 -/
 namespace Secp.Model
 
@@ -12,6 +14,7 @@ inductive DR (ε α : Type) where
   | err (e : ε)
   | panic
   | fuel
+  | undef
   deriving Repr, DecidableEq
 
 end Secp.Model
